@@ -5,6 +5,7 @@
 import json
 import re
 from vlib import Hit, Result, diff_lines, sh
+from props.c13_rejoin import run_rejoin_trace, N as N_RJT
 
 ASSUMPTIONS = [
     'suspend/resume follow the agent contract of Base/Agent.v (a resume aimed at a running task leaves a token consumed by the next suspension of that phase; any spurious return of a suspension is allowed)',
@@ -194,6 +195,9 @@ def run(ctx):
         try:
             rp = json.load(open(ctx.replay)).get('replay', {})
             mode, seed, n = rp.get('args', ['race', ctx.seed, 200])
+            if mode == 'rejoin_trace':
+                run_rejoin_trace(ctx, r, drv, int(seed), int(n), 600)
+                return r
             run_mode(ctx, r, h, drv, mode, int(seed), int(n), 600)
             return r
         except Exception as e:
@@ -204,6 +208,7 @@ def run(ctx):
     for sd in seeds:
         for mode in ('seq', 'race', 'f13', 'jthr', 'intr', 'rejoin'):
             run_mode(ctx, r, h, drv, mode, sd, n[mode], to)
+        run_rejoin_trace(ctx, r, drv, sd, N_RJT[ctx.tier], to)    # acceptor for the re-join traces (props/c13_rejoin.py)
     run_mode(ctx, r, h, drv, 'intry', ctx.seed, 1, 60)
     r.notes.append('E4 (run_thread_exit_callbacks popped the front after invoking it unlocked: a callback pushed meanwhile was dropped and the '
                    'invoked one ran twice) is repaired (callback moved out of the list under the lock); reachable through the public API by a joiner that '
